@@ -24,6 +24,13 @@ class ResObj(object):
     pass
 
 
+def methods_of(rid):
+    """method restriction of the shared Route objects (a decoration of the harness: the specification's tables do not
+    mention methods; the expected answer is the first entry of the spec table that matches the path AND admits the
+    method).  Entries given as tuples admit every method."""
+    return {'r1': ('GET',), 'r3': ('POST',)}.get(str(rid))       # r1 = /x, r3 = /<v>: both match /x
+
+
 def make_endpoint(rid, kind):
     from clastic import Response
     if kind == 'needs':
@@ -45,7 +52,8 @@ class Replayer(object):
         self.kinds = kinds
         self.routes = {}
         for rid, kind in kinds.items():
-            self.routes[rid] = Route(KIND_PAT[kind], make_endpoint(rid, kind))
+            ms = methods_of(rid)
+            self.routes[rid] = Route(KIND_PAT[kind], make_endpoint(rid, kind), methods=list(ms) if ms else None)
         self.snap = dict((rid, self.snapshot(r)) for rid, r in self.routes.items())
         self.apps = {}
         self.fresh = 100
@@ -53,7 +61,7 @@ class Replayer(object):
     @staticmethod
     def snapshot(route):
         return (route.pattern, route.endpoint, route.render, tuple(route.middlewares), tuple(sorted(route.resources)),
-                route.methods, route.slash_mode)
+                None if route.methods is None else tuple(sorted(route.methods)), route.slash_mode)
 
     def item_to_entry(self, item, fresh):
         from clastic import SubApplication
@@ -95,12 +103,12 @@ class Replayer(object):
             out.append({'rid': getattr(ep, 'rid', '?'), 'pattern': br.pattern})
         return out
 
-    def probe(self, app, path):
+    def probe(self, app, path, method='GET'):
         from werkzeug.test import Client
         from werkzeug.wrappers import BaseResponse
         import re
         try:
-            resp = Client(app, BaseResponse).get(path)
+            resp = Client(app, BaseResponse).open(path, method=method)
         except Exception as e:  # noqa
             return 'escaped:' + type(e).__name__
         m = re.search(r'mk-(\w+)-km', resp.get_data(as_text=True))
@@ -115,15 +123,19 @@ def probe_path(e):
     return ''.join(PREFIX[p] for p in e['pfx']) + {'plain': '/x', 'needs': '/y', 'bindv': '/w'}[e['kind']]
 
 
-def first_match(table, path):
+def first_match(table, path, method='GET'):
     """first entry of the spec table whose full pattern matches the probe path (patterns are literal
-    except the single-segment binding <v>)"""
+    except the single-segment binding <v>) and whose Route admits the method"""
+    seen = False
     for e in table:
         pat = exp_pattern(e)
         ps, qs = pat.strip('/').split('/'), path.strip('/').split('/')
         if len(ps) == len(qs) and all(a == b or a == '<v>' for a, b in zip(ps, qs)):
-            return str(e['rid'])
-    return 'status-404'
+            ms = methods_of(e['rid'])
+            if ms is None or method in ms:
+                return str(e['rid'])
+            seen = True
+    return 'status-405' if seen else 'status-404'
 
 
 def replay_history(run, rec):
@@ -163,12 +175,15 @@ def replay_history(run, rec):
                 return False
             for e in v['table']:
                 p = probe_path(e)
-                got = R.probe(app, p)
-                want = first_match(v['table'], p)
-                if got != want:
-                    run.violation('probe-differs', 'step %d: application %s answers %r with %r, spec says %r' % (n, a, p, got, want),
-                                  dict(ctx, app=a, path=p, observed=got, expected=want))
-                    return False
+                # a method nobody admits first (an ordinary 405 must leave no trace), then the restricted methods
+                for method in ('DELETE', 'POST', 'GET'):
+                    got = R.probe(app, p, method)
+                    want = first_match(v['table'], p, method)
+                    if got != want:
+                        run.violation('probe-differs' if method == 'GET' else 'probe-differs:%s' % method,
+                                      'step %d: application %s answers %s %r with %r, spec says %r' % (n, a, method, p, got, want),
+                                      dict(ctx, app=a, path=p, method=method, observed=got, expected=want))
+                        return False
         for rid, r in R.routes.items():
             if Replayer.snapshot(r) != R.snap[rid]:
                 run.violation('shared-route-mutated', 'Route object %s changed after step %d' % (rid, n), ctx)
